@@ -49,7 +49,8 @@ def spd_check(theta):
 
 
 def gen_cov(rng, n):
-    kind = rng.choice(["full", "few-points", "duplicates", "constant-sensor", "single-point", "diag", "correlated"])
+    kind = rng.choice(["full", "few-points", "duplicates", "constant-sensor", "single-point", "diag", "correlated",
+                       "mixed-scale", "mixed-scale"])
     rs = np.random.RandomState(rng.randrange(2 ** 31))
     if kind == "full":
         X = rs.randn(3 * n + 2, n)
@@ -64,6 +65,12 @@ def gen_cov(rng, n):
         return kind, np.zeros((n, n))
     elif kind == "diag":
         return kind, np.diag(rs.uniform(0.1, 3, size=n))
+    elif kind == "mixed-scale":
+        # every sensor at its own scale between 1e-6 and 1e6 (variances 1e-12 .. 1e12 in ONE matrix)
+        X = rs.randn(3 * n + 2, n) * (10.0 ** rs.choice([-6, -3, 0, 3, 5, 6], size=n))
+        if n > 1 and rs.rand() < 0.5:
+            X[:, rs.randint(n)] = 7.0
+        return kind, np.atleast_2d(np.cov(X.T))
     else:
         z = rs.randn(4 * n, 1)
         X = z + 0.01 * rs.randn(4 * n, n)
@@ -103,6 +110,29 @@ def run(ctx):
         ctx.extra["model_pinned_form_loses_positivity_at"] = pinned_lost
         ctx.count("eig_points", len(ds) * len(rhos))
 
+    # ---------------- (a2) the X update on matrices with a MIXED spectrum (huge negative next to small / positive
+    # eigenvalues, in any order): every eigenvalue of the result must be positive and equal the scalar map
+    if ctx.replay is None:
+        pool_d = [-1e12, -1e10, -3e8, -1e4, -1.0, -1e-6, 0.0, 1e-6, 2.0, 1e5, 1e9]
+        for rep in range(40 if ctx.quick() else 400):
+            n = ctx.rng.randint(2, 6)
+            dvec = np.array([ctx.rng.choice(pool_d) for _ in range(n)])
+            rho = ctx.rng.choice([0.1, 1.0, 10.0])
+            X = mc.reinflate_matrix(solver.x_update_prox(-np.diag(dvec), np.zeros((n, n)), rho))
+            try:
+                ev = np.linalg.eigvalsh(X) if np.all(np.isfinite(X)) else np.full(n, np.nan)
+            except np.linalg.LinAlgError:
+                ev = np.full(n, np.nan)
+            want = sorted(float((d + math.sqrt(d * d + 4 * rho)) / (2 * rho)) if d >= 0
+                          else float(4 * rho / (math.sqrt(d * d + 4 * rho) - d) / (2 * rho)) for d in dvec)
+            if not (np.all(np.isfinite(X)) and np.all(ev > 0)) or \
+                    not all(oracles.rel_close(a, b, 1e-9, 0) for a, b in zip(sorted(ev), want)):
+                ctx.violation("impl-violation", f"X update with mixed spectrum d={dvec.tolist()}, rho={rho}: eigenvalues {sorted(ev)} "
+                              f"are not the positive values {want}", {"eig": True, "mixed": dvec.tolist(), "rho": rho},
+                              {"site": "eig-positive-mixed"})
+            ctx.case(("eigmix", tuple(dvec), rho), nontrivial=True)
+        ctx.count("mixed_spectrum_cases", 40 if ctx.quick() else 400)
+
     # ---------------- (b) optimiser entry point across scales and ranks
     if ctx.replay is not None:
         cov_cases = [ctx.replay] if ctx.replay.get("cov") else []
@@ -129,7 +159,7 @@ def run(ctx):
         r = pyrandom.Random(c["seed"])
         n = c["N"] * c["W"]
         kind, S = gen_cov(r, n)
-        S = S * 10.0 ** c["log10scale"]
+        S = S * 10.0 ** (c["log10scale"] if kind != "mixed-scale" else 0)
         with warnings.catch_warnings():
             warnings.simplefilter("ignore")
             res = admm.admm_optimize_theta(S.copy(), c["lam"], c["W"], c["N"])
